@@ -202,6 +202,10 @@ pub enum Ports {
     /// a single port equal to the *last* port of `Range`
     SingleLast,
     Range,
+    /// the same number as `Single`, requested as the service's RPC port / metrics port: a port recorded for one purpose
+    /// is just as taken for another
+    SingleRpc,
+    SingleMetrics,
 }
 
 #[derive(Clone, Debug)]
@@ -268,6 +272,7 @@ impl Sys {
             Ports::Single => Some(PortRange::Single(12000)),
             Ports::SingleLast => Some(PortRange::Single(12001)),
             Ports::Range => Some(PortRange::Range(12000, 12001)),
+            Ports::SingleRpc | Ports::SingleMetrics => None,
         };
         AddNodeServiceOptions {
             antnode_dir_path: self.dir.join("bin"),
@@ -283,7 +288,7 @@ impl Sys {
             log_format: None,
             max_archived_log_files: None,
             max_log_files: None,
-            metrics_port: None,
+            metrics_port: if ports == Ports::SingleMetrics { Some(PortRange::Single(12000)) } else { None },
             network_id: None,
             node_ip: None,
             node_port: port(ports),
@@ -291,7 +296,7 @@ impl Sys {
             peers_args: Default::default(),
             rewards_address: RewardsAddress::from([1u8; 20]),
             rpc_address: None,
-            rpc_port: None,
+            rpc_port: if ports == Ports::SingleRpc { Some(PortRange::Single(12000)) } else { None },
             service_data_dir_path: self.dir.join("data"),
             service_log_dir_path: self.dir.join("logs"),
             upnp: false,
@@ -332,6 +337,16 @@ impl Sys {
                 if x.node_port.is_some() && x.node_port == y.node_port && x.status != ServiceStatus::Removed && y.status != ServiceStatus::Removed && x.status == ServiceStatus::Added && y.status == ServiceStatus::Added {
                     fails.push(Fail::new("port-conflict-refused", trig, format!("after {after}: services {a} and {b} both record node port {:?}", x.node_port)));
                 }
+                // whatever the purpose: a port number recorded for one service (node, metrics or RPC) is recorded for no other
+                if x.status != ServiceStatus::Removed && y.status != ServiceStatus::Removed {
+                    let ports_of = |n: &ant_service_management::NodeServiceData| -> Vec<u16> { n.node_port.into_iter().chain(n.metrics_port).chain(std::iter::once(n.rpc_socket_addr.port())).collect() };
+                    let (px, py) = (ports_of(x), ports_of(y));
+                    if let Some(p) = px.iter().find(|p| py.contains(p)) {
+                        if !(x.node_port == Some(*p) && y.node_port == Some(*p)) {
+                            fails.push(Fail::new("port-conflict-refused", trig, format!("after {after}: port {p} is recorded for both service {a} and service {b} (node / metrics / RPC ports {px:?} and {py:?})")));
+                        }
+                    }
+                }
             }
         }
         // the registry saved after the step loads back to the same state
@@ -358,6 +373,8 @@ impl System for Sys {
             ops.push(Op::Add { count: 1, ports: Ports::None });
             ops.push(Op::Add { count: 1, ports: Ports::Single });
             ops.push(Op::Add { count: 1, ports: Ports::SingleLast });
+            ops.push(Op::Add { count: 1, ports: Ports::SingleRpc });
+            ops.push(Op::Add { count: 1, ports: Ports::SingleMetrics });
             // a range request against a registry that already records its first or its last port: must be refused
             if self.reg.nodes.len() == 1 && self.reg.nodes.iter().any(|n| matches!(n.node_port, Some(12000) | Some(12001))) {
                 ops.push(Op::Add { count: 2, ports: Ports::Range });
@@ -428,6 +445,7 @@ impl System for Sys {
                     Ports::Single => vec![12000],
                     Ports::SingleLast => vec![12001],
                     Ports::Range => vec![12000, 12001],
+                    Ports::SingleRpc | Ports::SingleMetrics => vec![12000],
                 };
                 let port_taken = self.reg.nodes.iter().any(|n| requested.iter().any(|p| n.node_port == Some(*p) || n.metrics_port == Some(*p) || n.rpc_socket_addr.port() == *p));
                 let os = self.os.clone();
@@ -552,7 +570,7 @@ impl System for Sys {
 pub fn main(tier: Option<&str>) {
     let run = Run::new("C19", "model_checking", tier);
     run.rule(
-        "BFS, replay mode: operations {add(count 1|2, ports none|single|range), start, stop, remove(keep dirs y|n), upgrade(start y|n, force y|n), \
+        "BFS, replay mode: operations {add(count 1|2, ports none|single|range, the single port also requested as RPC port / metrics port), start, stop, remove(keep dirs y|n), upgrade(start y|n, force y|n), \
          process dies} on <=2 services through the real add_node / ServiceManager / NodeRegistry against a simulated OS; depth 5(6); fault \
          placements: none, and at most 1(2) injected failure(s) per history at call index 0..7 of an operation with an I/O error (thorough also pairs within one \
          operation); process-not-found and definition-removed-manually / does-not-exist answers arise from environment steps (process dies, \
